@@ -607,13 +607,28 @@ def eval_string_parts(stmts, truth: dict, result=None):
             t = booleval.ev(e.values[0], truth)
             return None if t is None else ev(e.values[0] if t else e.values[1])
         if isinstance(e, ast.Call):
-            return [Sym(A.norm(e))]
+            return [Sym(A.norm(subst(e)))]
         return None
+
+    def subst(e):
+        """names that stand for one unknown value are replaced by the expression that value was computed with"""
+        import copy
+
+        class X(ast.NodeTransformer):
+            def visit_Name(self, n):
+                v = vals.get(n.id)
+                if isinstance(n.ctx, ast.Load) and v is not None and len(v) == 1 and isinstance(v[0], Sym) and str(v[0]) != n.id:
+                    try:
+                        return ast.parse(str(v[0]), mode="eval").body
+                    except SyntaxError:
+                        return n
+                return n
+        return X().visit(copy.deepcopy(e))
     for st in stmts:
         if isinstance(st, ast.Assign) and len(st.targets) == 1 and isinstance(st.targets[0], ast.Name):
             r = ev(st.value)
             if r is None:
-                return None
+                r = [Sym(A.norm(subst(st.value)))]  # not a string-building expression: an unknown value, remembered by how it is computed
             vals[st.targets[0].id] = r
         elif isinstance(st, ast.Assign) and len(st.targets) == 1 and isinstance(st.targets[0], ast.Tuple) and isinstance(st.value, ast.Call):
             continue  # unpacking of a call result: the names stay symbols
